@@ -10,7 +10,7 @@
    is what the correspondence stage compares bit for bit with CPython. *)
 From Coq Require Import List ZArith Bool QArith Qcanon.
 From Coq Require Import Reals.
-From RxVerif Require Import Math.Exact Math.ExactProofs Math.FloatModel Math.C12Corr Math.SumErrorProofs Math.SumRunningProofs Math.MeanErrorProofs Math.MinMaxFloatProofs Math.FloatOpsProofs Math.VarianceFloatProofs Math.VarianceNonnegProofs Math.WelfordReal Math.WelfordErrorProofs Math.StddevErrorProofs.
+From RxVerif Require Import Math.Exact Math.ExactProofs Math.FloatModel Math.C12Corr Math.SumErrorProofs Math.SumRunningProofs Math.MeanErrorProofs Math.MinMaxFloatProofs Math.FloatOpsProofs Math.VarianceFloatProofs Math.VarianceNonnegProofs Math.WelfordReal Math.WelfordErrorProofs Math.StddevErrorProofs Math.PySumErrorProofs Math.FormalVarianceErrorProofs.
 Import ListNotations.
 Open Scope Qc_scope.
 
@@ -352,6 +352,64 @@ Theorem C12_float_stddev_reduce_error_bound : forall (h : hints) (l : list Coq.F
 Proof. exact welford_stddev_reduce_error. Qed.
 Print Assumptions C12_float_stddev_reduce_error_bound.
 
+(* (i) the TWO-PASS formal.variance / formal.stddev in binary64 (the functions the correspondence evaluates), for every
+       hint list h (a hinted x**2 is the rounded product or one of its two neighbours: |fpow2 - d^2| <= 4u d^2 + 4 eta).
+       CPython's builtin sum (Neumaier compensated summation, transliterated in FloatModel.sum_float) is analysed through
+       Fast2Sum exactness (Flocq Pff): the compensation term of each step IS the rounding error of that step, so
+         sum x = f_n + sum e_i exactly,  c_n = the recursive float sum of the e_i,  result = fl(f_n + c_n):
+         | pysum - sum x |  <=  pysum_bound (n-1) |sum x| (sum |x|)  =  u |sum x| + (1+u) ((1+u)^(n-1) - 1) u (n-1) (1+u)^(n-1) sum |x|
+       - a second-order bound.  Then mean = pysum / n, deviations, squares, pysum, / n against the exact population
+       variance popvarR = sqdev (meanR xs) xs / n, with the data in [lo, hi], hi - lo <= Rr; fvar_fin / fstd_fin are the
+       executable predicates "the named intermediate floats are finite". *)
+Theorem C12_float_builtin_sum_error_bound : forall (l : list Coq.Floats.PrimFloat.float),
+  l <> [] -> Forall (fun x => Coq.Floats.PrimFloat.is_finite x = true) l -> pysum_fin l = true ->
+  exists s, npysum (map NF l) = NF s /\ Coq.Floats.PrimFloat.is_finite s = true /\
+    (Rabs (FR s - sumR (map FR l))
+     <= pysum_bound (length l - 1) (Rabs (sumR (map FR l))) (sumR (map (fun x => Rabs (FR x)) l)))%R.
+Proof. exact npysum_error. Qed.
+Print Assumptions C12_float_builtin_sum_error_bound.
+Theorem C12_float_formal_variance_reduce_error_bound : forall (h : hints) (l : list Coq.Floats.PrimFloat.float) (lo hi Rr : R),
+  l <> [] -> Forall (fun x => Coq.Floats.PrimFloat.is_finite x = true) l -> Forall (fun x => (lo <= FR x <= hi)%R) l ->
+  (hi - lo <= Rr)%R -> (Z.of_nat (length l) < 2 ^ 53)%Z -> fvar_fin h l = true ->
+  exists f, fvariance_run (FA h) true (map NF l) = [NF f] /\ Coq.Floats.PrimFloat.is_finite f = true /\
+    (Rabs (FR f - popvarR (map FR l)) <= fvar_bound Rr (map FR l))%R.
+Proof. exact fvariance_reduce_error. Qed.
+Print Assumptions C12_float_formal_variance_reduce_error_bound.
+Theorem C12_float_formal_variance_error_bound : forall (h : hints) (l : list Coq.Floats.PrimFloat.float) (lo hi Rr : R),
+  Forall (fun x => Coq.Floats.PrimFloat.is_finite x = true) l -> Forall (fun x => (lo <= FR x <= hi)%R) l -> (hi - lo <= Rr)%R ->
+  (Z.of_nat (length l) < 2 ^ 53)%Z ->
+  Forall (fun k => fvar_fin h (firstn k l) = true) (seq 1 (length l)) ->
+  Forall2 (fun (v : num) (k : nat) =>
+             exists f, v = NF f /\ Coq.Floats.PrimFloat.is_finite f = true /\
+               (Rabs (FR f - popvarR (firstn k (map FR l))) <= fvar_bound Rr (firstn k (map FR l)))%R)
+          (fvariance_run (FA h) false (map NF l)) (seq 1 (length l)).
+Proof. exact fvariance_error. Qed.
+Print Assumptions C12_float_formal_variance_error_bound.
+Theorem C12_float_formal_stddev_reduce_error_bound : forall (h : hints) (l : list Coq.Floats.PrimFloat.float) (lo hi Rr : R),
+  l <> [] -> Forall (fun x => Coq.Floats.PrimFloat.is_finite x = true) l -> Forall (fun x => (lo <= FR x <= hi)%R) l ->
+  (hi - lo <= Rr)%R -> (Z.of_nat (length l) < 2 ^ 53)%Z -> fstd_fin h l = true ->
+  exists g, fstddev_run (FA h) true (map NF l) = [NF g] /\ Coq.Floats.PrimFloat.is_finite g = true /\ (0 <= FR g)%R /\
+    (Rabs (FR g - R_sqrt.sqrt (popvarR (map FR l)))
+     <= R_sqrt.sqrt (fvar_bound Rr (map FR l)) * (1 + u53) + u53 * R_sqrt.sqrt (popvarR (map FR l)))%R.
+Proof. exact fstddev_reduce_error. Qed.
+Print Assumptions C12_float_formal_stddev_reduce_error_bound.
+Theorem C12_float_formal_stddev_error_bound : forall (h : hints) (l : list Coq.Floats.PrimFloat.float) (lo hi Rr : R),
+  Forall (fun x => Coq.Floats.PrimFloat.is_finite x = true) l -> Forall (fun x => (lo <= FR x <= hi)%R) l -> (hi - lo <= Rr)%R ->
+  (Z.of_nat (length l) < 2 ^ 53)%Z ->
+  Forall (fun k => fstd_fin h (firstn k l) = true) (seq 1 (length l)) ->
+  Forall2 (fun (v : num) (k : nat) =>
+             exists g, v = NF g /\ Coq.Floats.PrimFloat.is_finite g = true /\ (0 <= FR g)%R /\
+               (Rabs (FR g - R_sqrt.sqrt (popvarR (firstn k (map FR l))))
+                <= R_sqrt.sqrt (fvar_bound Rr (firstn k (map FR l))) * (1 + u53)
+                   + u53 * R_sqrt.sqrt (popvarR (firstn k (map FR l))))%R)
+          (fstddev_run (FA h) false (map NF l)) (seq 1 (length l)).
+Proof. exact fstddev_error. Qed.
+Print Assumptions C12_float_formal_stddev_error_bound.
+(* the finiteness predicates are executable and hold on concrete data *)
+Example C12_float_formal_hypotheses_hold :
+  fstd_fin [] [f_of_Z 1; f_of_Z 2; f_of_Z 4; Coq.Floats.FloatOps.Z.ldexp (f_of_Z 3602879701896397) (-55)] = true.
+Proof. vm_compute. reflexivity. Qed.
+
 Theorem C12_float_unit_roundoff : u53 = (/ 2 ^ 53)%R.
 Proof. exact u53_value. Qed.
 Print Assumptions C12_float_unit_roundoff.
@@ -364,9 +422,12 @@ Print Assumptions C12_float_unit_roundoff.
    `variance` its sign (never negative), its special values (equal items, fewer than two items) and the magnitude of
    its error (C12_float_variance_error_bound*, completion and every streaming value, with a closed form).
    and for `stddev` (the C12_float_stddev_error_bound theorems).
-   NOT PROVED: the binary64 error of the two-pass formal.variance /
-   formal.stddev (whose inner sums are CPython's compensated builtin sum); int items mixed with floats; for those the
-   binary64 half is tied bit-exactly to the code and its error is measured against exact rationals by the oracle. *)
+   and for the two-pass formal.variance / formal.stddev, CPython's compensated builtin sum included
+   (C12_float_builtin_sum_error_bound and the C12_float_formal theorems).
+   NOT PROVED: int items mixed with floats (ints are exact in the exact-arithmetic theorems; in the binary64 theorems the
+   items are floats); for those the binary64 half is tied bit-exactly to the code and its error is measured against
+   exact rationals by the oracle.  The bounds are a-priori bounds in terms of u, n, the range and the magnitude of the
+   data (the conditioning), not the sharpest known constants. *)
 Theorem C12_partial : forall (sq : Qc -> Qc) (xs : list Qc),
   sum_run (QA sq) true xs = [qsum xs]
   /\ variance_run (QA sq) true xs = [sample_var xs]
